@@ -112,7 +112,8 @@ Proof.
         pose proof (IHe _ _ _ _ _ _ _ Hm He E1) as C1.
         destruct k; cbn in H; inversion H; subst; try (rewrite app_nil_r; exact C1);
           try (exfalso; unfold writable in Hw; destruct Hlim; subst lim; destruct (fmut c); cbn in *; discriminate).
-        -- apply clean_app; auto. destruct Hlim; subst lim; reflexivity.
+        -- apply clean_app; auto. destruct Hlim; subst lim; [|reflexivity].
+           exfalso. rewrite Hm in Hp. discriminate.
       * (* augassign *) apply andb_prop in Hc. destruct Hc as [Hc He]. apply andb_prop in Hc. destruct Hc as [Hc _].
         apply andb_prop in Hc. destruct Hc as [Hw Hp].
         destruct (eval n p w fr e) as [[[v w1] t1]|] eqn:E1; [|discriminate].
